@@ -87,6 +87,59 @@ def sess_transpose(seed, core=True, ncalls=12, rows=12):
     return dp.finish_session(lines, evs, text, seed, dp.features(lines) | {'core' if core else 'explored'}, classes)
 
 
+def sess_repetition(seed, target_rows=1150):
+    """A VERY long score (more than a thousand lines: deeper than Python's default recursion limit) built as K repetitions of a short
+    block.  The short score is validated by TLC like any other; the long one must give K times the short score's transposed block
+    (transposition is note by note) - a comparison between real outputs, logged as a flag."""
+    import kernpy as kp
+    over = dict(max_rows=9, min_rows=5, types=['**kern', '**text'], max_spines=2, splits=False, chords='none', accdisp=False,
+                pre_comments=False, post_comments=False, mid_comments=False, first_kern=1.0)
+    r, lines, types = dp.make_doc(seed, 'main', **over)
+    for c in gen.all_cells(lines):
+        if c['k'] == 'note':
+            c['n']['acc'] = []
+            c['t'] = gen.note_text(c['n'])
+    evs, doc, text = session.record_import(lines)
+    classes = {'has_note_or_rest'} if any(c['k'] == 'note' for c in gen.all_cells(lines)) else set()
+    if doc is None or len(lines) < 3:
+        return dp.finish_session(lines, evs, text, seed, {'repetition'}, classes)
+    evs.append(session.record_call(doc, {'op': 'dumps', 'args': session.dumps_args(), 'exact': True}))
+    ref = len(evs)
+    block = lines[1:-1]
+    K = max(2, -(-target_rows // max(1, len(block))))
+    long_text = session.render([lines[0]] + block * K + [lines[-1]])
+    for iv in r.sample(INTERVALS, 2):
+        up = r.random() < 0.5
+        d = 'up' if up else 'down'
+        src, _ = kp.loads(text)
+        ev = {'ev': 'transpose', 'iv': iv, 'up': up, 'ref': ref}
+        state = {}
+
+        def fwd():
+            state['t'] = src.to_transposed(iv, d)
+            return kp.dumps(state['t'])
+        ev['res'] = res_of(fwd)
+        ev['src_after'] = res_of(lambda: kp.dumps(src))
+        ev['snap'] = session.snapshot(src)
+        ev['back'] = res_of(lambda: kp.dumps(state['t'].to_transposed(iv, 'down' if up else 'up'))) if ev['res']['ok'] else {'ok': False, 'grid': [], 'exc': ''}
+        evs.append(ev)
+        # the long score
+        try:
+            big, _ = kp.loads(long_text)
+            out = session.grid_of(kp.dumps(big.to_transposed(iv, d)))
+            long_res = ('ok', out)
+        except Exception as ex:  # noqa
+            long_res = ('exc', type(ex).__name__)
+        if ev['res']['ok']:
+            g = ev['res']['grid']
+            want = ('ok', g[:1] + g[1:-1] * K + g[-1:])
+        else:
+            want = ('exc', long_res[1] if long_res[0] == 'exc' else '')       # the short score is not transposable: neither is the long one
+        evs.append({'ev': 'call', 'op': 'flag', 'name': 'transpose.long_score_equals_repetition_of_the_short_result', 'value': long_res == want,
+                    'args': {}, 'snap': evs[ref - 1]['snap'] if 'snap' in evs[ref - 1] else ''})
+    return dp.finish_session(lines, evs, text, seed, dp.features(lines) | {'core', 'repetition:%d' % K}, classes)
+
+
 def symptom_of(clause, ev, s):
     return clause
 
@@ -116,6 +169,9 @@ def main():
             s['tags'] = list(s['tags']) + ['long-score']
         sess += long_
         run.note('long_scores', nl)
+        nr = 3 if quick else 24
+        sess += docs.build_sessions(sess_repetition, [a.seed * 1000003 + 700000000 + i for i in range(nr)])
+        run.note('very_long_scores_by_repetition', nr)
     docs.validate_sessions(run, sess, symptom_of=symptom_of, relevant=docs.relevant_for(run.pid))
     ivs = set()
     for s in sess:
